@@ -23,6 +23,10 @@ CHECKS = {
          "Histories of 12-40 top-level evaluations in one runtime through all 15 entry points with 18 fault kinds (errors, every limit, step budget exhausted / context cancelled at an enumerated step index, host panics in five positions, errors in handlers, in-package then failure in a nested load); after every return the stack, pending conditions, evaluator nesting, entry depth, current package and raw evaluation context (hook accessors) are asserted, and a probe program must equal a twin runtime that replays a prefix of the step's effects consistent with the completion probes.",
          "Effects are atomic statements wrapped in a completion probe; the twin is driven fault-free through LoadString; unexported state is read through build-tag accessors in lisp/verif_on.go.",
          "DESIGN.md 4/C05"),
+ "C09": ("exploration", "structural-snapshot invariant monitor + twin execution (shared Program vs fresh parse) + Go race detector over concurrent private runtimes + the repository's checked build (-tags elpscheck) as second sanitizer",
+         "26 in-place/capacity-sensitive mutator forms x 5 literals x 4 routing shapes (function returning a literal, literal in a loop body, macro arguments and &rest lists, cdr/slice views held in a global) plus generated programs; each Program is parsed once, snapshotted node by node (pointer, type, scalar fields, quoting, seal, source, len/cap, child pointers) and fingerprinted, then loaded 2-5 times in one runtime against a re-parsing twin, in fresh differently-configured runtimes, and concurrently by 2/8/32 goroutines under GOMAXPROCS 2/16 in the -race build; results must equal the fresh-parse reference, snapshot and fingerprint must be unchanged, a bystander runtime's packages must not change, no race report; a sequential sub-list is repeated under -tags elpscheck.",
+         "The race detector only sees accesses the workload performs; same-value writes are invisible to the snapshot.",
+         "DESIGN.md 4/C09"),
  "C10": ("exploration", "twin execution: byte-exact transcripts across fresh runtimes, concurrent runtimes after unrelated prior activity (Go race detector build) and separate processes with different GOMAXPROCS/GOGC/prior activity",
          "Each program (33 templates printing/enumerating/serialising maps, closures, errors, schema/json/gensym/time output, plus generated core programs) is run once, then in 4 concurrently running fresh runtimes after unrelated activity in the same process, under the race detector; a fixed sub-list is re-run in 4 separate processes (GOMAXPROCS 1/3/8/16, GOGC 20/100/400/off, 0-19 rounds of prior activity); value rendering, Stderr, error message and rendering with location, step count and probe trace must be byte-identical; any race report is a violation.",
          "time:utc-now / time-elapsed / sleep and file loading are excluded by construction; map-order leaks are probabilistic per comparison (>=8 keys, 8 comparisons per program).",
